@@ -410,13 +410,13 @@ let exec (op : string) : unit =
             if !sdepth < 1 then tag ^ " Err DepthTooLow"
             else begin
             (* the hypothesis of the closed search theorems: SoundW (ReachWide: C07_wide, C08_wide,
-               root_values_ab_eq_wide) for the cache-free statements, the narrower Sound (Closed:
-               C09_closed, the cached statements) where the clocks cannot reach a draw *)
+               root_values_ab_eq_wide) for the cache-free statements, SoundC = SoundW and no third
+               repetition recorded (ClosedWide: C09_wide, the cached / parallel statements) *)
             let inw = soundWb tbl rk bs (nat_of_int !sdepth) b in
             if not inw then
               spec_fail (Printf.sprintf "DOMAIN soundWb %d (search invariant ReachWide.SoundW of the closed theorems) is false in [%s]: compared with the oracle all the same" !sdepth (snap_of b))
-            else if not (soundb tbl rk bs (nat_of_int !sdepth) b) then
-              spec_fail (Printf.sprintf "DOMAINC soundb %d (Reach.Sound, the domain of the cache theorems) is false in [%s]" !sdepth (snap_of b));
+            else if not (soundCb tbl rk bs (nat_of_int !sdepth) b) then
+              spec_fail (Printf.sprintf "DOMAINC soundCb %d (ClosedWide.SoundC, the domain of the cache / schedule theorems) is false in [%s]" !sdepth (snap_of b));
             (* depth >= 4 inside the wide domain: full-window alpha-beta per root move, equal to the plain
                minimax list by ReachWide.root_values_ab_eq_wide (pinned in props/C08.v); otherwise the
                plain minimax itself *)
@@ -466,6 +466,40 @@ let exec (op : string) : unit =
         let items = List.init d (fun i -> Printf.sprintf "%d:%d" (i + 1) (cum (i + 1))) in
         let total = List.fold_left (+) 0 (List.init d (fun i -> cum (i + 1))) in
         Printf.sprintf "clicount %d %s total:%d" d (String.concat " " items) total
+    | [ "pvp"; script ] ->
+        (* the player-vs-player loop: board printed, game-over test, one input read, classified by the
+           translated patterns (coordinates first), executed; the turn is toggled after an accepted move *)
+        let inputs = String.split_on_char '|' script in
+        let b0 = ref board_new in
+        String.iteri (fun i ch -> if ch <> '.' then let (p, c) = parse_pchar ch in
+                        match put tbl !b0 (n_of_int i) p c with Ok y -> b0 := y | _ -> ())
+          "RNBQKBNRPPPPPPPP................................pppppppprnbqkbnr";
+        let g = ref { gboard = !b0; ghist = []; gdepth = N0 } in
+        let show (gm : game) = Printf.sprintf "%s:%c" (cells_string (fun i -> bget gm.gboard (n_of_int i))) (if gm.gboard.turn = White then 'w' else 'b') in
+        let over (gm : game) : string option =
+          match game_ending tbl rk bs gm.gboard gm.gboard.turn with
+          | Ok (Some Checkmate, _) -> Some "checkmate"
+          | Ok (Some Stalemate, _) -> Some "stalemate"
+          | Ok (Some Draw, _) -> Some "draw"
+          | Ok (None, _) -> None
+          | _ -> Some "PANIC" in
+        let boards = ref [ show !g ] in
+        let ending = ref (over !g) in
+        List.iter (fun inp ->
+            if !ending = None then begin
+              let cs = chars_of_string inp in
+              let r =
+                if full_match cOORDINATE_RE cs && String.length inp = 4 then
+                  apply_by_coords tbl rk bs !g (n_of_int (parse_sq (String.sub inp 0 2))) (n_of_int (parse_sq (String.sub inp 2 2)))
+                else if full_match aLGEBRAIC_RE cs then apply_by_notation tbl rk bs !g cs
+                else GInvalidMove in
+              (match r with
+               | GOk (_, g') -> g := { g' with gboard = toggle_turn g'.gboard }
+               | _ -> ());
+              boards := show !g :: !boards;
+              ending := over !g
+            end) inputs;
+        Printf.sprintf "pvp %s %s" (match !ending with Some e -> e | None -> "runaway") (String.concat " " (List.rev !boards))
     | [ "watch"; limit; d ] ->
         (* the real watch loop chose the moves (random book continuation, search): the model validates
            them - every printed label must be the notation of a legal move in the position reached, the
